@@ -150,17 +150,17 @@ theorem long_first_shift : ∀ t : Fin 3, ∀ r l : Fin 4, UInt8.ofNat (0xC0 + t
 
 /-- the classification and the header `handle_quic_packet` parses for a datagram that starts with a protected long-header
     packet of version 1: QUIC (fixed bit), long header, the packet's DCID, version 1 -/
-theorem long_wire_header (p : Long) (hwf : p.wf) (hv : p.version = [0, 0, 0, 1]) (hd : p.dcid.length ≤ 20)
-    (hs63 : p.scid.length ≤ 63) (m more : Bytes) :
+theorem long_wire_header (p : Long) (hr : p.reserved < 4) (h1 : 1 ≤ p.pn.length) (h4 : p.pn.length ≤ 4)
+    (hv : p.version = [0, 0, 0, 1]) (hd : p.dcid.length ≤ 20) (hs63 : p.scid.length ≤ 63) (m more : Bytes) :
     ∃ b0 rest, p.protect m ++ more = b0 :: rest ∧ (b0.toNat &&& 0x40) >>> 6 = 1 ∧
       parseHeader1 b0 rest = .long p.dcid .v1 := by
-  obtain ⟨hr, _, _, hsl, h1, h4, _⟩ := hwf
   have hb : p.ty.bits < 3 := by cases p.ty <;> simp [LType.bits]
   have hf6 : p.first >>> 6 = 3 := by
     have := long_first_shift ⟨p.ty.bits, hb⟩ ⟨p.reserved, hr⟩ ⟨p.pn.length - 1, by omega⟩
     simpa [Long.first] using this
-  have hL : Quic.Dissect.isLong p.first = true := (Lemmas.QuicDissect.long_first p ⟨hr, by rw [hv]; rfl, by omega, hsl, h1, h4,
-    ‹_›⟩).1
+  have hL : Quic.Dissect.isLong p.first = true := by
+    have := (Lemmas.QuicDissect.long_first_bits ⟨p.ty.bits, hb⟩ ⟨p.reserved, hr⟩ ⟨p.pn.length - 1, by omega⟩).1
+    simpa [Long.first] using this
   generalize hb0 : p.first ^^^ (m.headD 0 &&& 0x0f) = b0
   have e6 : b0 >>> 6 = 3 := by rw [← hb0, shift6_mask _ _ _ (by decide)]; exact hf6
   have eL : Quic.Dissect.isLong b0 = true := by
@@ -277,5 +277,266 @@ theorem quicRun_one (o : Opts) (kl : List Keylog.Key) (L : SealLaws Pc) (sel : S
         exact ⟨a, b, c⟩) h8 r2
 
 end Runs
+
+/-! ### a capture described from the senders' side -/
+
+/-- a described capture: handshake datagrams and 1-RTT datagrams of the connection (each with the time the reader yields for
+    it, the frame of the independent encoder that carries it and its UDP part), and anything else -/
+inductive QEv
+  | hs (t : Container.Time) (fr : Spec.FrameBuild.Frame) (u : Udp) (d : DgH)
+  | one (t : Container.Time) (fr : Spec.FrameBuild.Frame) (u : Udp) (d : Dg1)
+  | foreign (e : CapEv)
+
+def QEv.cap : QEv → CapEv
+  | .hs t fr _ _ => ⟨t, fr.encode, viewOf fr⟩
+  | .one t fr _ _ => ⟨t, fr.encode, viewOf fr⟩
+  | .foreign e => e
+
+/-- the main loop does not take the packet for QUIC: not UDP, or UDP without payload, or (without `-g`) a first payload byte
+    without the QUIC fixed bit -/
+def NotQuic (o : Opts) (p : MainLoop.Pkt) : Prop :=
+  p.l4 = .udp → p.payload = [] ∨ (o.greasy = false ∧ ∀ b0 r, p.payload = b0 :: r → (b0.toNat &&& 0x40) >>> 6 ≠ 1)
+
+/-- the first packet of a handshake datagram is a QUIC v1 long-header packet (it carries what the main loop routes by) -/
+def HdrOk (d : DgH) : Prop :=
+  ∃ q qs, d.pkts = q :: qs ∧ LongShape q.x ∧ 1 ≤ q.x.pnLen ∧ q.x.pnLen ≤ 4
+
+/-- `wH` / `w1`: the UDP payload of a handshake / 1-RTT datagram of this connection (`dgWire` / `wireOf`: packet protection
+    and header protection under the connection's keys) -/
+def QDescribed (fl : Flow) (wH : DgH → Bytes) (w1 : Dg1 → Bytes) (o : Opts) (evs : List QEv) : Prop :=
+  ∀ ev ∈ evs, match ev with
+    | .hs t fr u d => IsDg fl d.srv fr u ∧ u.payload = wH d ∧ d.ts = Container.usOfFloat t.toFloat ∧ HdrOk d
+    | .one t fr u d => IsDg fl d.x.srv fr u ∧ u.payload = w1 d ∧ d.x.ts = Container.usOfFloat t.toFloat ∧
+        1 ≤ d.x.pnLen ∧ d.x.pnLen ≤ 4
+    | .foreign e => dissect e.buf = .ok e.d ∧ ∀ tag, NotQuic o (pktOf tag e.d)
+
+def dgPkt (fl : Flow) (srv : Bool) (payload : Bytes) (tag : Nat) : MainLoop.Pkt :=
+  ⟨.udp, if srv then serverEp fl else clientEp fl, if srv then clientEp fl else serverEp fl, payload, true, tag⟩
+
+/-- the handshake datagrams with the `Packet` objects the loop makes of them (tag = position in the capture) -/
+def hsItems (fl : Flow) (kl : List Keylog.Key) : Nat → List QEv → List (List Keylog.Key × MainLoop.Pkt × DgH)
+  | _, [] => []
+  | n, .hs _ _ u d :: rest => (kl, dgPkt fl d.srv u.payload n, d) :: hsItems fl kl (n + 1) rest
+  | n, _ :: rest => hsItems fl kl (n + 1) rest
+
+def oneItems (fl : Flow) : Nat → List QEv → List (MainLoop.Pkt × Dg1)
+  | _, [] => []
+  | n, .one _ _ u d :: rest => (dgPkt fl d.x.srv u.payload n, d) :: oneItems fl (n + 1) rest
+  | n, _ :: rest => oneItems fl (n + 1) rest
+
+def noOne : QEv → Bool | .one .. => false | _ => true
+def noHs : QEv → Bool | .hs .. => false | _ => true
+
+theorem capOk_of_qdescribed (fl : Flow) (wH : DgH → Bytes) (w1 : Dg1 → Bytes) (o : Opts) (evs : List QEv)
+    (h : QDescribed fl wH w1 o evs) (ht : ∀ e ∈ evs.map QEv.cap, Ingest.isMinusOne e.t = false) :
+    CapOk (evs.map QEv.cap) := by
+  intro e he
+  refine ⟨?_, ht e he⟩
+  obtain ⟨ev, hev, rfl⟩ := List.mem_map.mp he
+  have := h ev hev
+  cases ev with
+  | hs t fr u d => exact dissect_dg fl d.srv fr u this.1
+  | one t fr u d => exact dissect_dg fl d.x.srv fr u this.1
+  | foreign e => exact this.1
+
+theorem quicView_cons (o : Opts) (kl : List Keylog.Key) (p : MainLoop.Pkt) (l : List (MainLoop.Item Keylog.Key)) :
+    quicView o kl (.frame p :: l) = quicView o kl [.frame p] ++ quicView o kl l := by
+  simp only [quicView]
+  split
+  · rename_i ks hk; exact absurd hk (classify_frame_not_keys o p ks)
+  · simp
+  · simp
+
+theorem quicView_notQuic (o : Opts) (hc : o.checksumTest = false) (p : MainLoop.Pkt) (h : NotQuic o p)
+    (kl : List Keylog.Key) : quicView o kl [.frame p] = [] := by
+  have hcl : ∀ p' b0 r, (classify o (.frame p) : Class Keylog.Key) ≠ .quic p' b0 r := by
+    intro p' b0 r hq
+    cases hl : p.l4 with
+    | tcp =>
+      simp only [classify, hl] at hq
+      repeat' split at hq
+      all_goals cases hq
+    | other => simp only [classify, hl] at hq; cases hq
+    | udp =>
+      cases hpl : p.payload with
+      | nil => simp only [classify, hl, hpl] at hq; cases hq
+      | cons b r' =>
+        simp only [classify, hl, hpl, hc, Bool.false_and, Bool.false_eq_true, if_false] at hq
+        rcases h hl with hh | ⟨hg, hh⟩
+        · rw [hpl] at hh; cases hh
+        · have := hh b r' hpl
+          simp only [hg, Bool.or_false, decide_eq_true_eq] at hq
+          rw [if_neg this] at hq
+          cases hq
+  simp only [quicView]
+  split
+  · rfl
+  · rename_i p' b0 r hq; exact absurd hq (hcl p' b0 r)
+  · rfl
+
+theorem quicView_dgram (o : Opts) (hc : o.checksumTest = false) (p : MainLoop.Pkt) (hu : p.l4 = .udp) (b0 : UInt8)
+    (rest : Bytes) (hp : p.payload = b0 :: rest) (hfix : (b0.toNat &&& 0x40) >>> 6 = 1) (kl : List Keylog.Key) :
+    quicView o kl [.frame p] = [⟨kl, parseHeader1 b0 rest, p⟩] := by
+  simp [quicView, classify, hu, hp, hc, hfix]
+
+/-- what the main loop reads off the first bytes of the connection's datagrams (discharged by `hs_wire_header` /
+    `one_wire_header` for the wire formats of the connection) -/
+def HsHeader (wH : DgH → Bytes) : Prop :=
+  ∀ d, HdrOk d → ∃ b0 rest, wH d = b0 :: rest ∧ (b0.toNat &&& 0x40) >>> 6 = 1 ∧ parseHeader1 b0 rest = .long (dgDcid d) .v1
+
+def OneHeader (w1 : Dg1 → Bytes) : Prop :=
+  ∀ d : Dg1, 1 ≤ d.x.pnLen → d.x.pnLen ≤ 4 →
+    ∃ b0 rest, w1 d = b0 :: rest ∧ (b0.toNat &&& 0x40) >>> 6 = 1 ∧ parseHeader1 b0 rest = .short
+
+theorem quicView_hsPhase (fl : Flow) (wH : DgH → Bytes) (w1 : Dg1 → Bytes) (o : Opts) (hc : o.checksumTest = false)
+    (hH : HsHeader wH) (kl : List Keylog.Key) (evs : List QEv) (hd : QDescribed fl wH w1 o evs)
+    (hph : ∀ ev ∈ evs, noOne ev = true) (n : Nat) :
+    quicView o kl (itemsFrom n (evs.map QEv.cap)) =
+      (hsItems fl kl n evs).map fun x => (⟨x.1, .long (dgDcid x.2.2) .v1, x.2.1⟩ : QIn Keylog.Key) := by
+  induction evs generalizing n with
+  | nil => rfl
+  | cons ev rest ih =>
+    have hrest := ih (fun e he => hd e (List.mem_cons_of_mem _ he)) (fun e he => hph e (List.mem_cons_of_mem _ he)) (n + 1)
+    have hev := hd ev (List.mem_cons_self ..)
+    have hp1 := hph ev (List.mem_cons_self ..)
+    rw [List.map_cons, itemsFrom, quicView_cons, hrest]
+    cases ev with
+    | one t fr u d => cases hp1
+    | foreign e =>
+      simp only [QEv.cap, hsItems]
+      rw [quicView_notQuic o hc _ (hev.2 n) kl]; rfl
+    | hs t fr u d =>
+      obtain ⟨hdg, hpay, _, hhdr⟩ := hev
+      obtain ⟨b0, r, hw, hfix, hparse⟩ := hH d hhdr
+      simp only [QEv.cap, hsItems, List.map_cons]
+      rw [pktOf_dg fl d.srv fr u hdg n,
+        quicView_dgram o hc _ rfl b0 r (by show u.payload = _; rw [hpay, hw]) hfix kl, hparse]
+      rfl
+
+theorem quicView_onePhase (fl : Flow) (wH : DgH → Bytes) (w1 : Dg1 → Bytes) (o : Opts) (hc : o.checksumTest = false)
+    (hO : OneHeader w1) (kl : List Keylog.Key) (evs : List QEv) (hd : QDescribed fl wH w1 o evs)
+    (hph : ∀ ev ∈ evs, noHs ev = true) (n : Nat) :
+    quicView o kl (itemsFrom n (evs.map QEv.cap)) =
+      (oneItems fl n evs).map fun x => (⟨kl, .short, x.1⟩ : QIn Keylog.Key) := by
+  induction evs generalizing n with
+  | nil => rfl
+  | cons ev rest ih =>
+    have hrest := ih (fun e he => hd e (List.mem_cons_of_mem _ he)) (fun e he => hph e (List.mem_cons_of_mem _ he)) (n + 1)
+    have hev := hd ev (List.mem_cons_self ..)
+    have hp1 := hph ev (List.mem_cons_self ..)
+    rw [List.map_cons, itemsFrom, quicView_cons, hrest]
+    cases ev with
+    | hs t fr u d => cases hp1
+    | foreign e =>
+      simp only [QEv.cap, oneItems]
+      rw [quicView_notQuic o hc _ (hev.2 n) kl]; rfl
+    | one t fr u d =>
+      obtain ⟨hdg, hpay, _, h1, h4⟩ := hev
+      obtain ⟨b0, r, hw, hfix, hparse⟩ := hO d h1 h4
+      simp only [QEv.cap, oneItems, List.map_cons]
+      rw [pktOf_dg fl d.x.srv fr u hdg n,
+        quicView_dgram o hc _ rfl b0 r (by show u.payload = _; rw [hpay, hw]) hfix kl, hparse]
+      rfl
+
+theorem itemsFrom_append (a b : List CapEv) (n : Nat) :
+    itemsFrom n (a ++ b) = itemsFrom n a ++ itemsFrom (n + a.length) b := by
+  induction a generalizing n with
+  | nil => simp [itemsFrom]
+  | cons e rest ih =>
+    have : n + 1 + rest.length = n + (rest.length + 1) := by omega
+    simp [itemsFrom, ih (n + 1), this]
+
+theorem quicView_append (o : Opts) (kl : List Keylog.Key) (a : List CapEv) (l : List (MainLoop.Item Keylog.Key)) (n : Nat) :
+    quicView o kl (itemsFrom n a ++ l) = quicView o kl (itemsFrom n a) ++ quicView o kl l := by
+  induction a generalizing n with
+  | nil => simp [itemsFrom, quicView]
+  | cons e rest ih =>
+    rw [itemsFrom, List.cons_append, quicView_cons, ih (n + 1), quicView_cons o kl _ (itemsFrom (n + 1) rest),
+      List.append_assoc]
+
+section WireHeaders
+open TLX.Quic.Session TLX.Cipher
+variable (H : Crypto.Prims) (Pc : Cipher.Prims)
+
+theorem hsHeader_dgWire (L : SealLaws Pc) (dcid0 : Bytes) (sel : SuiteSel) (sh ch : Bytes) :
+    HsHeader (dgWire H Pc L dcid0 sel sh ch) := by
+  intro d ⟨q, qs, hp, hshape, h1, h4⟩
+  have hw : dgWire H Pc L dcid0 sel sh ch d =
+      (longOf q.x (protectedPayload L.aeadSeal (lvlDec H dcid0 sel sh ch q.x.level).alg
+        (lvlKey H dcid0 sel sh ch q.x.level q.x.srv) q.x)).protect q.mask ++
+      (qs.map (pkWire H Pc L dcid0 sel sh ch)).flatten := by
+    unfold dgWire; rw [hp]; rfl
+  have hd : dgDcid d = q.x.dcid := by unfold dgDcid; rw [hp]
+  rw [hw, hd]
+  exact long_wire_header _ (by show q.x.lowBits % 4 < 4; omega)
+    (by show 1 ≤ (pnBytes q.x.pnLen q.x.pn).length; rw [pnBytes_length]; exact h1)
+    (by show (pnBytes q.x.pnLen q.x.pn).length ≤ 4; rw [pnBytes_length]; exact h4)
+    hshape.version hshape.dcid (by have := hshape.scid; show q.x.scid.length ≤ 63; omega) _ _
+
+theorem oneHeader_wireOf (L : SealLaws Pc) (sel : SuiteSel) (v : Quic.Session.Version) (k0 : AppKeys) :
+    OneHeader (wireOf H Pc L sel v k0) := by
+  intro d h1 h4
+  obtain ⟨b0, rest, e1, e2, e3, _⟩ := short_wire_header
+    (shortOf d.x (protectedPayload L.aeadSeal sel.alg (genDir (keyUpdate H sel v) k0 d.x.srv d.x.gen) d.x))
+    (shortOf_wf _ _ h1 h4) d.mask
+  exact ⟨b0, rest, e1, e2, e3⟩
+
+end WireHeaders
+
+/-! ### the layers glued around the connection's QUIC session -/
+section Glue
+open TLX.Export
+
+/-- **The file layers around one QUIC session.** Capture file (any container the reader model reads as the packets `cap`,
+    every frame dissected without exception), key-log file, options without `-c`. If the QUIC view of the capture leaves
+    exactly ONE session in `quic_sessions` and `blk` is what it exports, the run gets past option parsing and the read loop,
+    and either dies in the write loop (some frame of some session does not fit scapy's fields) or writes a file that
+    `ReadsBack` exactly `blk` (after the blocks of the TLS sessions of the capture). -/
+theorem export_of_quic_session (mask : Quic.Dissect.MaskFn) (H : Crypto.Prims) (P : Cipher.Prims) (args : Args)
+    (legacy : Bool) (keyFile : Option Keylog.Str) (file : Bytes) (cap : List CapEv)
+    (hread : Container.read legacy file = .ok (cap.map CapEv.item)) (hok : CapOk cap)
+    (hnoc : args.checksumTest = false)
+    (pm : List (Int × Int)) (ports : List Int)
+    (hpm : Options.getPortMap Options.Src.bare args.mArg = .ok pm)
+    (hports : Options.serverPorts Options.Src.builtin Options.Src.pDefault args.pArg = .ok ports)
+    (sess : QuicSess QConn)
+    (hq : quicRun (quicMachine mask H P (capInfo cap)) (optsOf args ports pm) []
+      (quicView (optsOf args ports pm) ((fileKeysOf keyFile).getD []) (itemsFrom 0 cap)) = [sess])
+    (blk : List Pipeline.OutPkt)
+    (hblk : (quicMachine mask H P (capInfo cap)).out args.metadata sess.st = blk) :
+    (∃ e, exportFile mask H P args legacy keyFile file = .abort (.write e)) ∨
+    ∃ f, exportFile mask H P args legacy keyFile file = .file f ∧ ReadsBack f blk := by
+  have hopt := optionsBad_false args pm ports hpm hports
+  have hing := ingest_of_capture Keylog.srcHexClass legacy file cap hread hok
+  rw [← hnoc] at hing
+  have hout := C18.fresh_run_is (Pipeline.tlsMachine H P (capInfo cap)) (quicMachine mask H P (capInfo cap))
+    (optsOf args ports pm) ((fileKeysOf keyFile).getD []) (itemsFrom 0 cap)
+  rw [hq] at hout
+  simp only [List.flatMap_cons, List.flatMap_nil, List.append_nil] at hout
+  have hmd : (optsOf args ports pm).metadata = args.metadata := rfl
+  rw [hmd, hblk] at hout
+  generalize (List.flatMap (fun s => (Pipeline.tlsMachine H P (capInfo cap)).out s.st
+    ((fileKeysOf keyFile).getD [] ++ dsbKeys (optsOf args ports pm) (itemsFrom 0 cap)))
+    (tlsRun (Pipeline.tlsMachine H P (capInfo cap)) (optsOf args ports pm) []
+      (Spec.Demux.tcpView (optsOf args ports pm) (itemsFrom 0 cap)))) = pre at hout
+  have hfr := framesFrom_eq mask H P args (fileKeysOf keyFile) (itemsFrom 0 cap) (capInfo cap) pm ports hpm hports
+  rw [hout] at hfr
+  rcases Props.Export.exportFrom_stages mask H P freshState args legacy keyFile file hopt with
+    ⟨e, hi, _⟩ | ⟨xs, is, out, hi, hf, hw⟩
+  · rw [hing] at hi; cases hi
+  rw [hing] at hi
+  cases hi
+  rw [show Ingest.lookup (infosFrom 0 cap) = capInfo cap from rfl, hfr] at hf
+  cases hf
+  rcases hw with ⟨e, _, he⟩ | ⟨f, hw, he⟩
+  · exact .inl ⟨e, he⟩
+  · refine .inr ⟨f, he, ?_⟩
+    have hwf := Lemmas.Export.framesFrom_wf mask H P freshState args _ _ _ _
+      (Lemmas.Export.itemsWith_good _ _ _ _ _ _ hing) hfr
+    have hw' : fileOf (pre ++ blk ++ []) = .ok f := by rw [List.append_nil]; exact hw
+    obtain ⟨A, C, B, _, _, hB, hr, hg⟩ := file_of_frames pre blk [] f (by rw [List.append_nil]; exact hwf) hw'
+    exact ⟨A, C, B, hB, hr, hg⟩
+
+end Glue
 
 end TLX.Props.C02File
